@@ -266,11 +266,12 @@ def run_metropolis(task, out):
             steps_rec = []
             real_gne = sp.SplittingSimulation.get_next_error
 
-            def gne(self, decoder, error_rate, previous_error, _log=log,
-                    _rec=steps_rec):
+            def gne(self, decoder, error_rate, previous_error, *a,
+                    _log=log, _rec=steps_rec, **kw):
                 start = len(_log)
                 prev = gf2.pack(previous_error)
-                nxt, lp = real_gne(self, decoder, error_rate, previous_error)
+                nxt, lp = real_gne(self, decoder, error_rate, previous_error,
+                                   *a, **kw)
                 _rec.append((prev, float(error_rate), gf2.pack(nxt),
                              float(lp), list(_log[start:])))
                 return nxt, lp
